@@ -212,7 +212,11 @@ func calculateLineItemPrice(item *org.Item, cur currency.Code, rates []*currency
 	if icur == currency.CodeEmpty {
 		icur = cur
 	}
-	price := item.Price.MatchPrecision(icur.Def().Zero())
+	def := icur.Def()
+	if def == nil {
+		return fmt.Errorf("currency '%v' not defined", icur)
+	}
+	price := item.Price.MatchPrecision(def.Zero())
 	if item.Currency == currency.CodeEmpty || item.Currency == cur {
 		item.Price = &price
 		return nil
